@@ -355,4 +355,71 @@ example :
     ((demoW0.run (demoSteps ++ [.deliver .server .ok, .deliver .server .ok, .deliver .client .ok])).cm.tooFull = false) := by
   refine ⟨by decide +kernel, ⟨⟨0, PING, bytesOfStr Generated.PING_RTT_PAYLOAD⟩, by decide +kernel, rfl⟩, by decide +kernel, by decide +kernel⟩
 
+
+/-! ## 4. the overshoot of one pass of the loop -/
+
+theorem cb_fullness (w : World) (e : End) (i : Nat) (io : CbIo) :
+    (w.step (.cb e i io)).cm.fullness ≤ w.cm.fullness + Generated.MUX_CUT ∧
+    (w.step (.cb e i io)).sm.fullness ≤ w.sm.fullness + Generated.MUX_CUT := by
+  unfold World.step
+  split
+  · exact ⟨by omega, by omega⟩
+  · split
+    · exact ⟨by simp only; omega, by simp only; omega⟩
+    · cases e with
+      | client =>
+        simp only [World.stepRaw, World.cbC]
+        split
+        · split
+          · split
+            next hcb => exact ⟨C09_callback_bound _ _ _ _ _ _ _ hcb, by simp only; omega⟩
+            · exact ⟨by simp only; omega, by simp only; omega⟩
+          · exact ⟨by omega, by omega⟩
+        · exact ⟨by omega, by omega⟩
+      | server =>
+        simp only [World.stepRaw, World.cbS]
+        split
+        · split
+          · split
+            next hcb => exact ⟨by simp only; omega, C09_callback_bound _ _ _ _ _ _ _ hcb⟩
+            · exact ⟨by simp only; omega, by simp only; omega⟩
+          · exact ⟨by omega, by omega⟩
+        · exact ⟨by omega, by omega⟩
+
+/-- **The overshoot is bounded by a constant per active connection.**  Between two
+`check_fullness` calls the select loop only runs callbacks; any sequence of `n` callbacks (of any
+handlers of either end, whatever their sockets do) adds at most `n × 2048` bytes of stream
+payload to an end's `fullness`.  One pass of `runonce` calls a handler once per ready entry of its
+`socks` list — the flow's socket and the tunnel's two files, four entries — so at most four times:
+when the `check_fullness` that follows the pass finds the budget exceeded and pauses the end
+(`C09_ping_once`; from then on `C09_gate` admits no stream payload at all), the budget is exceeded
+by at most `4 × 2048` bytes per active connection. -/
+theorem C09_callbacks_overshoot (w : World) (steps : List Step)
+    (hcb : ∀ st ∈ steps, ∃ e i io, st = Step.cb e i io) :
+    (w.run steps).cm.fullness ≤ w.cm.fullness + steps.length * Generated.MUX_CUT ∧
+    (w.run steps).sm.fullness ≤ w.sm.fullness + steps.length * Generated.MUX_CUT := by
+  induction steps generalizing w with
+  | nil => simp [World.run]
+  | cons st rest ih =>
+    obtain ⟨e, i, io, rfl⟩ := hcb _ (List.mem_cons_self)
+    have hs := cb_fullness w e i io
+    have hr := ih (w.step (.cb e i io)) (fun st hst => hcb st (List.mem_cons_of_mem _ hst))
+    simp only [World.run, List.foldl_cons, List.length_cons] at hr ⊢
+    have : (rest.length + 1) * Generated.MUX_CUT = rest.length * Generated.MUX_CUT + Generated.MUX_CUT := by
+      rw [Nat.add_mul]; simp
+    have hrun : List.foldl World.step (w.step (.cb e i io)) rest = (w.step (.cb e i io)).run rest := rfl
+    rw [hrun] at hr ⊢
+    omega
+
+/-- The same for one pass in which every handler of an end gets exactly one callback. -/
+theorem C09_pass_overshoot (w : World) (e : End) (ios : Nat → CbIo) (k : Nat) :
+    (w.run (passCallbacks e ios k)).cm.fullness ≤ w.cm.fullness + k * Generated.MUX_CUT ∧
+    (w.run (passCallbacks e ios k)).sm.fullness ≤ w.sm.fullness + k * Generated.MUX_CUT := by
+  have h := C09_callbacks_overshoot w (passCallbacks e ios k) (by
+    intro st hst
+    simp only [passCallbacks, List.mem_map, List.mem_range] at hst
+    obtain ⟨i, _, rfl⟩ := hst
+    exact ⟨e, i, ios i, rfl⟩)
+  simpa [passCallbacks] using h
+
 end Sshuttle.Tunnel
